@@ -2,9 +2,9 @@ SPECIFICATION Spec
 CONSTANTS
   Plugin = "memtierd"
   Classes = {"a", "b"}
-  Ctrs = {"c1", "c2"}
-  CfgKinds = {"valid", "malformed"}
-  AnnKinds = {"none", "class", "unknowncls"}
+  Ctrs = {"c1"}
+  CfgKinds = {"valid", "nocfg", "malformed"}
+  AnnKinds = {"none", "class", "unknowncls", "fuzzpar"}
   ResKinds = {"full", "nolinux"}
 INVARIANTS
   TypeOK
